@@ -59,6 +59,7 @@ type interp struct {
 	curInstr    ssa.Instruction
 	curFr       *frame
 	tickers     []*channel
+	timedCtxs   []*ctxObj // live contexts made by WithTimeout / WithDeadline
 	promNames   map[string]string
 	skls        map[*value]*sklModel
 	httpHandler value
